@@ -72,15 +72,44 @@ def find_function(qualname):
     tree, text = module_ast(modname)
     node = tree
     body = tree.body
-    for p in path:
+    for i, p in enumerate(path):
         if p == "<locals>":
             continue
+        owner = node
         node = _find(body, p)
         if node is None:
+            # not written lexically in that class: an attribute bound to a function defined elsewhere in the
+            # repository (`to_bytes = AckFrame.to_bytes`, `from_bytes = classmethod(Other.from_bytes.__func__)`) or
+            # inherited from a base class.  The live class says which function the attribute *is*; its source is then
+            # located lexically as usual -- still the code that runs, nothing transcribed.
+            if isinstance(owner, ast.ClassDef) and i == len(path) - 1:
+                target = _live_attribute_target(modname, [q for q in path[:i] if q != "<locals>"], p)
+                if target is not None and target != qualname:
+                    return find_function(target)
             raise KeyError(f"{qualname}: '{p}' not found in {modname}")
         body = node.body
     seg = ast.get_source_segment(text, node) or ""
     return node, modname, hashlib.sha256(seg.encode()).hexdigest()[:16]
+
+
+def _live_attribute_target(modname, owner_path, name):
+    """Qualified name of the repository function that attribute `name` of the live class is (through classmethod /
+    staticmethod wrappers and the MRO), or None."""
+    import inspect
+    try:
+        obj = importlib.import_module(modname)
+        for q in owner_path:
+            obj = getattr(obj, q)
+        raw = inspect.getattr_static(obj, name)
+    except (AttributeError, ImportError):
+        return None
+    if isinstance(raw, (classmethod, staticmethod)):
+        raw = raw.__func__
+    if not inspect.isfunction(raw) or "<locals>" in raw.__qualname__ or "<lambda>" in raw.__qualname__:
+        return None
+    if not is_repo_module(raw.__module__ or ""):
+        return None
+    return raw.__module__ + "." + raw.__qualname__
 
 
 def find_function_by_role(within, text):
